@@ -534,6 +534,9 @@ func (c *Ctx) lookupLocalName(name string, env *Env) *Val {
 		for _, b := range c.fn.Blocks {
 			for _, in := range b.Instrs {
 				if d, ok := in.(*ssa.DebugRef); ok && !d.IsAddr {
+					if o := d.Object(); o == nil || o.Pkg() == nil || o.Parent() == o.Pkg().Scope() {
+						continue // package-level objects are not local variables
+					}
 					if id, ok := d.Expr.(*ast.Ident); ok && id.Name == name {
 						return c.freshVal(d.X.Type(), "unassigned_"+name)
 					}
@@ -571,7 +574,10 @@ func (c *Ctx) lookupLocalName(name string, env *Env) *Val {
 				bb := best.(ssa.Instruction).Block()
 				switch {
 				case bb == in.Block():
-					tie = true
+					// two definitions in one block: the later instruction is the one in scope
+					if instrIndex(in) > instrIndex(best.(ssa.Instruction)) {
+						best = v
+					}
 				case bb.Dominates(in.Block()):
 					best, tie = v, false
 				}
@@ -1439,4 +1445,13 @@ func (c *Ctx) reassignedParam(name string) *Val {
 		return nil
 	}
 	return c.vals[best]
+}
+
+func instrIndex(in ssa.Instruction) int {
+	for i, x := range in.Block().Instrs {
+		if x == in {
+			return i
+		}
+	}
+	return -1
 }
